@@ -8,7 +8,8 @@ yields) on per-goroutine values; each goroutine keeps its own trace, and every t
 sequential operators as the sequential checks (a result that depends on another goroutine's activity is a mismatch); race
 reports with a frame in the library are violations.
  * message codec: harness/cmd/codec runpar (plus shared, read-only decoded messages), judged by Trace_C19;
- * every other family - conversions (C17), identities (C12), slice / area lists (C13), QoS rules and flow descriptions (C15),
+ * every other family - conversions (C17), identities (C12), slice / area lists (C13), helpers on UE-supplied contents (C14, mostly malformed
+   contents: the refusal and warning paths), the NULL algorithms and refusals of the security API (C08 laws, family f08), QoS rules and flow descriptions (C15),
    PCO / PSI (C16), UE policy container (C18), ciphering / MAC (C06, C07), IE field accessors (C09): harness/cmd/conc runs
    the families' own case formats (their own TLC generator configurations, plus cases taken from the traces their drivers
    record) through copies of their per-operation functions (tools/conc_sync.py; a drift guard compares the copies with the
